@@ -66,6 +66,8 @@ structure ClipClip (α : Type) where
   /-- `node.inputs[0].dtype` known for the first / second Clip (`extract_min_max` dereferences it). -/
   dtype1 : Bool := true
   dtype2 : Bool := true
+  /-- the model's default-domain opset is ≥ 11 (before that Clip carries min/max as attributes) -/
+  opsetGe11 : Bool := true
 
 def ClipClip.check (p : ClipClip α) : Bool :=
   boundOk p.a && boundOk p.b && boundOk p.c && boundOk p.d
@@ -82,7 +84,8 @@ def ClipClip.build [Min α] [Max α] (p : ClipClip α) : ClipRepl α :=
     hi := combine min (combine max p.b.val? (match p.b.val? with | some _ => p.c.val? | none => none)) p.d.val? }
 
 def ClipClip.run [Min α] [Max α] (p : ClipClip α) : Outcome (ClipRepl α) :=
-  if !p.check then .nofire
+  if !p.opsetGe11 then .nofire      -- commit 625745e (finding C05-N2, fixed)
+  else if !p.check then .nofire
   else if !(p.dtype1 && p.dtype2) then .raises
   else .fire p.build
 
@@ -103,6 +106,7 @@ structure ReluClip (α : Type) where
   a : Bound α
   b : Bound α
   dtype1 : Bool := true
+  opsetGe11 : Bool := true
 
 def ReluClip.check (p : ReluClip α) : Bool := boundOk p.a && boundOk p.b
 
@@ -117,12 +121,14 @@ def ReluClip.buildReluClip [Max α] (zero : α) (p : ReluClip α) : ClipRepl α 
   { lo := some (max zero (p.a.val?.getD zero)), hi := p.b.val?.map (max zero) }
 
 def ReluClip.run [Max α] (zero : α) (p : ReluClip α) : Outcome (ClipRepl α) :=
-  if !p.check then .nofire
+  if !p.opsetGe11 then .nofire
+  else if !p.check then .nofire
   else if !p.dtype1 then .raises
   else .fire (p.build zero)
 
 def ReluClip.runReluClip [Max α] (zero : α) (p : ReluClip α) : Outcome (ClipRepl α) :=
-  if !p.check then .nofire
+  if !p.opsetGe11 then .nofire
+  else if !p.check then .nofire
   else if !p.dtype1 then .raises
   else .fire (p.buildReluClip zero)
 
@@ -181,6 +187,10 @@ structure MinMax (α : Type) where
   kind : MMKind
   first : List (MMConst α)    -- `first_node.inputs[1:]`
   second : List (MMConst α)   -- `second_node.inputs[1:]`
+  /-- rank of `x` (`first_node.inputs[0].shape`), `none` when the shape is unknown -/
+  xRank : Option Nat := none
+  /-- the model's default-domain opset is ≥ 11 (Clip takes min/max as inputs) -/
+  opsetGe11 : Bool := true
 
 /-- numpy broadcasting of two (rank, flat data) values restricted to size-1 tensors and equal-length vectors. -/
 def bop (op : α → α → α) : (Nat × List α) → (Nat × List α) → (Nat × List α)
@@ -221,10 +231,15 @@ def MinMax.ubs (p : MinMax α) : List (MMConst α) :=
 
 def flatVals (cs : List (MMConst α)) : List α := cs.flatMap MMConst.data
 
-/-- `_FuseMinMaxBase.check` followed by `rewrite`. -/
+/-- commit 1d299da (finding D4, fixed): a one-element constant of rank > 0 must not outrank `x`. -/
+def MinMax.rankBad (p : MinMax α) (c : MMConst α) : Bool :=
+  c.rank > 0 && (match p.xRank with | some rx => rx < c.rank | none => true)
+
+/-- `_FuseMinMaxBase.check` followed by `rewrite` (Clip kinds: opset guard of commit 625745e first). -/
 def MinMax.run [Min α] [Max α] [LT α] [DecidableRel (α := α) (· < ·)] (p : MinMax α) : Outcome (MMRepl α) :=
+  if p.kind.needScalars && !p.opsetGe11 then .nofire else
   -- the per-input loop of `check`: first failing input decides
-  let bad := p.consts.any (fun c => !c.isConst || (p.kind.needScalars && !c.isScalar))
+  let bad := p.consts.any (fun c => !c.isConst || (p.kind.needScalars && (!c.isScalar || p.rankBad c)))
   if bad then .nofire
   else
     match p.kind with
